@@ -493,7 +493,7 @@ func processFile(path, rel, module string, pkgVars map[string]bool, clockRound m
 	if tn := timeImportName(f); tn != "" {
 		ast.Inspect(f, func(n ast.Node) bool {
 			if se, ok := n.(*ast.SelectorExpr); ok {
-				if id, ok := se.X.(*ast.Ident); ok && id.Name == tn && id.Obj == nil && (se.Sel.Name == "NewTimer" || se.Sel.Name == "Timer") {
+				if id, ok := se.X.(*ast.Ident); ok && id.Name == tn && id.Obj == nil && (se.Sel.Name == "NewTimer" || se.Sel.Name == "Timer" || se.Sel.Name == "AfterFunc") {
 					se.X = ast.NewIdent(rtName)
 					rw.st.Timers++
 					rw.needRT = true
